@@ -1501,6 +1501,13 @@ func scenarios(prop string) []*explore.Scenario {
 		pp := params{name: "2conn-3rec/pings", conns: [][]op{{L("appA"), L("appB")}, {L("appA")}}, gens: 2, chunkRecs: 1, memCap: 2, opt: pg, pingInterval: 400 * time.Millisecond, retryInterval: 300 * time.Millisecond, idleBeforeStop: 2 * time.Second, advances: 1}
 		add(pp, 1, 2)
 	}
+	if prop == "C05" {
+		// the singleton orchestrator keeps the arrival order of every connection (one pipeline, batches handed over in order)
+		so := params{name: "singleton/2conn-2key-2rec/order", conns: [][]op{{L("appA"), L("appB"), L("appA"), L("appB")}, {L("appA"), L("appB"), L("appA"), L("appB")}}, gens: 2, chunkRecs: 2, memCap: 0, opt: full, flushAlt: true, singleton: true, advances: 1}
+		add(so, 1, 2)
+		sb := params{name: "singleton/batch-boundary/order", conns: [][]op{{L("appA"), L("appB"), L("appA"), L("appB"), L("appA")}}, gens: 2, chunkRecs: 1, memCap: 2, opt: full, flushAlt: true, singleton: true, sinkBatch: 2, advances: 1}
+		add(sb, 1, 2)
+	}
 	if prop == "C01" || prop == "C18" {
 		// the singleton orchestrator (one pipeline for all key sets)
 		sg := params{name: "singleton/2conn-3rec/restart", conns: [][]op{{L("appA"), L("appB")}, {L("appA")}}, gens: 2, chunkRecs: 1, memCap: 2, opt: full, flushAlt: true, singleton: true, advances: 1}
